@@ -124,6 +124,16 @@ def raw_obs(res_):
     return ('OK', 'NOT-A-BUFFER:%r' % (v,))
 
 
+def same_denotation(r1, r2):
+    """two raw Buffer tokens that denote the same bit sequence canonically (only the padding side differs)"""
+    from core import parse_raw, canonical
+    try:
+        b1, b2 = parse_raw(r1), parse_raw(r2)
+        return b1.length == b2.length and bits_of(b1) == bits_of(b2) and canonical(b1) and canonical(b2)
+    except Exception:  # noqa: BLE001
+        return False
+
+
 def parse_model_raw(line):
     if line.startswith('OK '):
         return ('OK', line[3:])
@@ -136,16 +146,40 @@ def parse_model_raw(line):
 
 def bytes_case(batch, klass, yline, res_):
     """the same call on the byte-level model (SchcBytes.v: the Buffer operations compress/decompress perform, on bytes):
-    the result must be the same Buffer down to its bytes, padding side and padding length.  Compute actions are outside
-    the byte-level decompress model (it answers Unmodelled): those cases are only counted."""
+    the result must be the same Buffer down to its bytes, padding side and padding length (a result that denotes the same bits
+    canonically with the other padding side is counted as representation drift)."""
     o = raw_obs(res_)
 
     def parse(l, o=o, batch=batch):
-        if l == 'EXC Unmodelled':
-            batch.rep.hist['bytes-model:unmodelled(compute)'] = batch.rep.hist.get('bytes-model:unmodelled(compute)', 0) + 1
+        m = parse_model_raw(l)
+        if m != o and m[0] == 'OK' and o[0] == 'OK' and same_denotation(m[1], o[1]):
+            batch.rep.drift += 1      # same bits, same length, both canonical, another padding side: representation drift, not a disagreement
             return o
-        return parse_model_raw(l)
+        return m
     batch.add('bytes:' + klass.split(':')[0], yline, o, parse, None, dict(layer='schc-bytes', driver_line_full=yline if len(yline) < 20000 else None), key=yline)
+
+
+def bytes_cm_compress(batch, klass, stack, pkt, d, strat_first, rules, res_):
+    """ContextManager.compress on the byte-level model (ManagerBytes.bcm_compress with the byte-level parsers): raw-exact result"""
+    from microschc.rfc8724 import RuleNature as _RN
+    if stack == 'CoAP-semantic' or len(pkt) * 8 > 12000 or any(r.nature is _RN.FRAGMENTATION for r in rules):
+        return
+    buf = Buffer(pkt, len(pkt) * 8)
+    t = ['Y', 'bcmcompress', stack, raw(buf), DIRC[d], 'F' if strat_first else 'B', str(len(rules))]
+    for r in rules:
+        t += raw_rule_tokens(r)
+    bytes_case(batch, klass, ' '.join(t), res_)
+
+
+def bytes_cm_decompress(batch, klass, sbuf_raw, d, rules, res_):
+    """ContextManager.decompress on the byte-level model (ManagerBytes.bcm_decompress, compute stage included)"""
+    from microschc.rfc8724 import RuleNature as _RN
+    if any(r.nature is _RN.FRAGMENTATION for r in rules):
+        return
+    t = ['Y', 'bcmdecompress', sbuf_raw, dopt(d), str(len(rules))]
+    for r in rules:
+        t += raw_rule_tokens(r)
+    bytes_case(batch, klass, ' '.join(t), res_)
 
 
 def reloaded(rule):
@@ -273,4 +307,10 @@ def case_match(batch, pd, rules, klass='match', extra=None, ruler=None):
     if extra:
         desc.update(extra)
     batch.add(klass, line, out, (lambda l, v=visible: parse_model_match(l, v)), fails, desc, key=('match', line, id(ruler) if ruler is not None else 0))
+    # the same on the byte-level matcher (ManagerBytes.bmatch_packet_descriptor): same rules, same order, same ending
+    yt = ['Y', 'bmatch'] + raw_pdesc_tokens(pd) + [str(len(visible))]
+    for i in visible:
+        yt += raw_rule_tokens(rules[i])
+    yline = ' '.join(yt)
+    batch.add('bytes:' + klass.split(':')[0], yline, out, (lambda l, v=visible: parse_model_match(l, v)), None, dict(layer='schc-bytes', op='match'), key=('bmatch', yline, id(ruler) if ruler is not None else 0))
     return out
